@@ -18,15 +18,13 @@ LEAN_MODULE = "SkVerif.Props.C06"
 OBLIGATIONS = [
     "SkVerif.C06.loss_nonneg",
     "SkVerif.C06.loss_zero_of_perfect",
-    "SkVerif.C06.gm_floor_of_perfect_partial",
+    "SkVerif.C06.gm_floor_of_perfect",
     "SkVerif.C06.spe_symm",
     "SkVerif.C06.spe_mem_Icc_0_2",
     "SkVerif.C06.pct_eq_textbook",
     "SkVerif.C06.rel_eq_textbook",
     "SkVerif.C06.asym_eq_textbook",
-    "SkVerif.C06.class_call_eq_function_partial",
-    "SkVerif.C06.class_call_raises",
-    "SkVerif.C06.class_call_differs_witness",
+    "SkVerif.C06.class_call_eq_function",
     "SkVerif.C06.mae_mse_eq_spec",
     "SkVerif.C06.mape_mspe_eq_spec",
     "SkVerif.C06.masym_eq_spec",
@@ -36,6 +34,7 @@ OBLIGATIONS = [
     "SkVerif.C06.median_reducer_is_median",
     "SkVerif.C06.mdae_univariate_is_median",
     "SkVerif.C06.median_metrics_eq_spec",
+    "SkVerif.C06.mdape_weighted_eq_spec",
     "SkVerif.C06.median_scaled_univariate_eq_spec",
     "SkVerif.C06.relative_loss_univariate_eq_spec",
     "SkVerif.C06.weighted_median_laws",
@@ -43,16 +42,14 @@ OBLIGATIONS = [
     "SkVerif.C06.direct_metrics",
     "SkVerif.C06.multioutput_is_per_column",
     "SkVerif.C06.relative_metrics",
-    "SkVerif.C06.multioutput_is_per_column_relative_partial",
+    "SkVerif.C06.multioutput_is_per_column_relative",
     "SkVerif.C06.multioutput_is_per_column_scaled",
     "SkVerif.C06.scaled_aggregate_is_ratio_of_averages",
     "SkVerif.C06.scaled_scale_invariant",
     "SkVerif.C06.scaled_not_scale_invariant_when_clamped",
-    "SkVerif.C06.mdape_weighted_partial",
-    "SkVerif.C06.mdape_weighted_swapped_witness",
-    "SkVerif.C06.gm_eq_spec_partial",
-    "SkVerif.C06.gmrae_univariate_eq_spec_partial",
-    "SkVerif.C06.gm_weighted_violated",
+    "SkVerif.C06.gm_eq_spec",
+    "SkVerif.C06.gm_weighted_exponents",
+    "SkVerif.C06.gmrae_univariate_eq_spec",
 ]
 TRUSTED = ["hand-written model SkVerif/Model/Metrics.lean of _functions.py / _classes.py over exact rationals",
            "numpy (np.average, np.median, np.where, broadcasting), scipy gmean, sklearn _weighted_percentile / mean_absolute_error / "
@@ -70,16 +67,16 @@ RULE = ("exhaustive small scope: 18 metrics x option grid x all y_true,y_pred in
         "non-trivial = the real code returned a number (no error) from at least 2 horizon steps")
 LEVEL_TEXT = "proof"
 LEVEL_NOTE = ("Proved for the Rat model, all lengths / shapes / weights / options: non-negativity of all 18 metrics, zero at a perfect "
-              "forecast (16 metrics) and the EPS floor of the unweighted geometric means, swap invariance and the [0,2] / [0,4] bounds of "
-              "the symmetric percentage errors, scale invariance of the four scaled errors while the naive error is not clamped "
-              "(+ witness of failure when it is), raw_values = column-by-column and uniform / weighted averaging for the 9 direct "
-              "two-argument metrics, textbook formulas for MAE, MSE, (s)MAPE, (s)MSPE, asymmetric error, the unweighted median metrics "
-              "(np.median is a median), and univariate MRAE, GMRAE, MASE, MSSE, MdASE, MdSSE, relative loss; class = function for the 8 "
-              "callable classes. Only observed by correspondence + oracle: sklearn's weighted percentile as the documented weighted median, "
-              "per-column behaviour of relative / scaled metrics, multi-output aggregation of scaled errors and relative loss, rejection "
-              "branches, float rounding. Known findings (model keeps the code's behaviour, negation proved at witnesses): weighted MdAPE with "
-              "symmetric=False swaps its arguments; horizon-weighted geometric means broadcast weights along the wrong axis; 10 of 18 metric "
-              "classes raise on every call.")
+              "forecast (16 metrics) and the EPS floor of the geometric means (with and without horizon weights), swap invariance and the "
+              "[0,2] / [0,4] bounds of the symmetric percentage errors, scale invariance of the four scaled errors while the naive error is "
+              "not clamped (+ witness of failure when it is), raw_values = column-by-column for all 18 metrics and uniform / weighted "
+              "averaging for the 9 direct two-argument metrics, textbook formulas for MAE, MSE, (s)MAPE, (s)MSPE, asymmetric error, the "
+              "(weighted) median metrics incl. weighted MdAPE (np.median is a median; the weighted percentile is sklearn's), (weighted) "
+              "geometric means as product of powers + root degree, and univariate MRAE, MASE, MSSE, MdASE, MdSSE, relative loss; "
+              "class call = function call with the same options for all 18 classes. Only observed by correspondence + oracle: sklearn's "
+              "weighted percentile as the documented lower weighted median, multi-output aggregation of scaled errors and relative loss "
+              "against the textbook, rejection branches, float rounding. Three defects found by this check were fixed in /repo "
+              "(b4ed244, 11fa5f6, acfe904); their witnesses stay in the corpus as regressions.")
 TECHNIQUE = "Lean 4 theorems over an executable Rat model + differential correspondence against the real functions and classes"
 
 EPS = Fraction(1, 2 ** 52)
